@@ -1,14 +1,19 @@
 pub mod common;
+pub mod c01;
 pub mod c02;
 pub mod c03;
 pub mod c04;
 pub mod c05;
 pub mod c06;
 pub mod c07;
+pub mod c08;
+pub mod c09;
+pub mod c10;
+pub mod c11;
 pub mod eco;
 
 use crate::prop::Prop;
 
 pub fn all() -> Vec<&'static dyn Prop> {
-    vec![&c02::C02, &c03::C03, &c04::C04, &c05::C05, &c06::C06, &c07::C07]
+    vec![&c01::C01, &c02::C02, &c03::C03, &c04::C04, &c05::C05, &c06::C06, &c07::C07, &c08::C08, &c09::C09, &c10::C10, &c11::C11]
 }
